@@ -169,6 +169,12 @@ def run_impl(case):
         r = observe(do)
         if st.get("mutate") and isinstance(rhs, np.ndarray):
             rhs[...] = -777.0  # later changes to the source must not reach the target
+        elif hasattr(rhs, "values") and isinstance(getattr(rhs, "values", None), np.ndarray) and (len(outs) + len(case["steps"])) % 2 == 0:
+            # ... nor does what the owner of a FlodymArray source does with it afterwards (every other time)
+            try:
+                rhs.values[...] = -777
+            except Exception:  # noqa
+                pass
         r["post"] = observe_raw(a)
         outs.append(r)
     return dict(kind="steps", steps=outs)
